@@ -490,7 +490,9 @@ func genRLCase() *rapid.Generator[C12RLCase] {
 		}
 		g := rapid.Custom(func(t *rapid.T) RLArrival {
 			return RLArrival{
-				GapNs: rapid.SampledFrom([]int64{0, 0, 1, 1000, 1e6, 1e8, 5e8, 1e9, 2e9, 1e10, 999999999, 1000000001}).Draw(t, "gap"),
+				// negative gaps: a request that read the clock earlier reaches the bucket later (what concurrency between
+				// the clock read and the bucket produces)
+				GapNs: rapid.SampledFrom([]int64{0, 0, 1, 1000, 1e6, 1e8, 5e8, 1e9, 2e9, 1e10, 999999999, 1000000001, -1, -1e6, -5e8, -1e9}).Draw(t, "gap"),
 				Route: rapid.SampledFrom([]int{0, 0, 1, 2}).Draw(t, "route"),
 				G:     rapid.SampledFrom([]int{1, 1, 1, 2, 4, 16}).Draw(t, "g"),
 			}
@@ -512,7 +514,8 @@ func runC12RL(c C12RLCase, tolerate bool) *fOutcome {
 	defer w.close()
 	type lim struct {
 		rps, burst float64
-		times      []int64 // admitted arrival times
+		times      []int64 // admission instants
+		latest     int64   // newest clock reading this bucket has seen
 	}
 	parse := func(s string) float64 { f, _ := strconv.ParseFloat(s, 64); return f }
 	var global, route *lim
@@ -567,43 +570,52 @@ func runC12RL(c C12RLCase, tolerate bool) *fOutcome {
 			}
 			continue
 		}
+		// a request admitted with a stale clock reading is admitted no earlier than the newest reading
+		// the bucket has already seen: that instant, not the stale reading, is when it was admitted
+		if now > l.latest {
+			l.latest = now
+		}
 		for k := 0; k < admitted; k++ {
-			l.times = append(l.times, now)
+			l.times = append(l.times, l.latest)
 		}
 		if ar.G > 1 {
 			out.Labels["concurrent-arrivals"] = true
 		}
-		// window bound over every pair of admitted arrivals
-		n := len(l.times)
-		for a := 0; a < n; a++ {
-			// only windows that end at the newest instant need re-checking
-			if l.times[n-1] != now {
-				break
-			}
-			cnt := 0
-			for b := a; b < n; b++ {
-				cnt++
-			}
-			win := float64(now-l.times[a]) / 1e9
-			rps := l.rps
-			if math.IsNaN(rps) {
-				rps = 0 // "not a number" is no rate: only the burst may be admitted
-			}
-			bound := l.burst + rps*win
-			if float64(cnt) > bound*(1+1e-9)+1e-9 {
-				f := ffail("C12", "rate-bound", i, "limiter rps=%v burst=%v admitted %d requests in a window of %.9fs (bound %.3f); config:\n%s", l.rps, l.burst, cnt, win, bound, src)
-				if math.IsNaN(l.rps) {
-					f.Sig = "rate-limit-rps-nan"
+		// window bound over every pair of admitted arrivals (timestamps as read by the requests; they
+		// need not arrive in order)
+		sorted := append([]int64(nil), l.times...)
+		sort.Slice(sorted, func(i, j int) bool { return sorted[i] < sorted[j] })
+		n := len(sorted)
+		if ar.GapNs < 0 {
+			out.Labels["out-of-order-arrival"] = true
+		}
+		for a := 0; a < n && admitted > 0; a++ {
+			for bEnd := a; bEnd < n; bEnd++ {
+				if bEnd+1 < n && sorted[bEnd+1] == sorted[bEnd] {
+					continue // extend to the end of a group of equal timestamps
 				}
-				if f.Sig != "" && tolerate && verifkit.Known(f.Sig) {
-					out.Known = append(out.Known, f.Sig)
+				cnt := bEnd - a + 1
+				win := float64(sorted[bEnd]-sorted[a]) / 1e9
+				rps := l.rps
+				if math.IsNaN(rps) {
+					rps = 0 // "not a number" is no rate: only the burst may be admitted
+				}
+				bound := l.burst + rps*win
+				if float64(cnt) > bound*(1+1e-9)+1e-9 {
+					f := ffail("C12", "rate-bound", i, "limiter rps=%v burst=%v admitted %d requests in a window of %.9fs (bound %.3f); config:\n%s", l.rps, l.burst, cnt, win, bound, src)
+					if math.IsNaN(l.rps) {
+						f.Sig = "rate-limit-rps-nan"
+					}
+					if f.Sig != "" && tolerate && verifkit.Known(f.Sig) {
+						out.Known = append(out.Known, f.Sig)
+						return out
+					}
+					out.Failure = f
 					return out
 				}
-				out.Failure = f
-				return out
-			}
-			if float64(cnt) > l.burst {
-				out.Labels["admitted-beyond-burst-by-refill"] = true
+				if float64(cnt) > l.burst {
+					out.Labels["admitted-beyond-burst-by-refill"] = true
+				}
 			}
 		}
 		if float64(len(l.times)) >= l.burst+1 || out.Labels["429"] {
